@@ -53,7 +53,29 @@ def lean_chars(s):
 
 
 def unescape(s):
-    return s.replace('\\\\', '\0').replace('\\"', '"').replace('\\n', '\n').replace('\0', '\\')
+    """value of the inside of a (non-raw) Rust string literal"""
+    out, i = [], 0
+    simple = {"n": "\n", "t": "\t", "r": "\r", "0": "\0", "\\": "\\", '"': '"', "'": "'"}
+    while i < len(s):
+        c = s[i]
+        if c != "\\":
+            out.append(c); i += 1
+            continue
+        d = s[i + 1]
+        if d in simple:
+            out.append(simple[d]); i += 2
+        elif d == "\n":                      # line continuation: the newline and the following white space vanish
+            i += 2
+            while i < len(s) and s[i] in " \t\n\r":
+                i += 1
+        elif d == "x":
+            out.append(chr(int(s[i + 2:i + 4], 16))); i += 4
+        elif d == "u" and s[i + 2] == "{":
+            j = s.index("}", i)
+            out.append(chr(int(s[i + 3:j].replace("_", ""), 16))); i = j + 1
+        else:
+            raise ValueError(NAME + ": unknown escape in string literal %r" % s)
+    return "".join(out)
 
 
 LIT = r'r#"(.*?)"#|r"([^"]*)"|"((?:[^"\\]|\\.)*)"'
@@ -167,6 +189,66 @@ def nr_bits_literal(all_src, ty):
                 if sm:
                     return 1 + nr_bits_literal(all_src, sm.group(1))
     raise ValueError(NAME + ": nr_affected_bits of %s is not a literal" % ty)
+
+
+def lex_top(text):
+    """(kind, text) items of a macro argument text: ("lit", value) for string literals (plain, raw), ("sym", char) else"""
+    i = 0
+    lit = re.compile(LIT, flags=re.S)
+    while i < len(text):
+        m = lit.match(text, i)
+        if m and (m.group(3) is not None or i == 0 or not (text[i - 1].isalnum() or text[i - 1] == "_")):
+            yield ("lit", literal_value(m), text[i:m.end()]); i = m.end()
+        else:
+            yield ("sym", text[i], text[i]); i += 1
+
+
+def macro_fields(text):
+    """`key=value` arguments (top level, string-aware) of a macro invocation, in order; values as source text"""
+    parts, cur, depth = [], "", 0
+    for kind, val, raw in lex_top(text):
+        if kind == "sym" and val in "([{":
+            depth += 1
+        elif kind == "sym" and val in ")]}":
+            depth -= 1
+        if kind == "sym" and val == "," and depth == 0:
+            parts.append(cur); cur = ""
+        else:
+            cur += raw
+    parts.append(cur)
+    out = []
+    for p in parts:
+        m = re.match(r"\s*(\w+)\s*=(?!=)(.*)$", p, flags=re.S)
+        if m:
+            out.append((m.group(1), m.group(2)))
+    return out
+
+
+def const_string(expr, what):
+    """value of a constant string expression: a literal (plain with escapes and line continuations, raw) or
+    `concat!(..)` of such expressions (integer and boolean literals, as `concat!` allows, included)"""
+    e = expr.strip()
+    m = re.match(LIT, e, flags=re.S)
+    if m and m.end() == len(e):
+        return literal_value(m)
+    if re.match(r"concat!\s*[(\[{]", e) and e[-1] in ")]}":
+        inner = e[e.index("!") + 1:].strip()[1:-1]
+        parts, cur, depth = [], "", 0
+        for kind, val, raw in lex_top(inner):
+            if kind == "sym" and val in "([{":
+                depth += 1
+            elif kind == "sym" and val in ")]}":
+                depth -= 1
+            if kind == "sym" and val == "," and depth == 0:
+                parts.append(cur); cur = ""
+            else:
+                cur += raw
+        if cur.strip():
+            parts.append(cur)
+        return "".join(const_string(p, what) for p in parts)
+    if re.fullmatch(r"\d+|true|false", e):
+        return e
+    raise ValueError(NAME + ": %s is not a constant string this generator can evaluate: %r" % (what, e[:80]))
 
 
 def require(cond, what):
@@ -812,10 +894,13 @@ def gen_OpenQasmTemplates(repo):
         hm = re.match(r"\s*(\w+)\s*,\s*crate::gates::(\w+)", text)
         require(hm, "unrecognised declare_controlled! invocation: %r" % text[:80])
         name = hm.group(1)
-        args = re.findall(r"\barg\s*=\s*(\w+)", text)
-        oq = re.search(r"\bopen_qasm\s*=\s*(%s)" % LIT, text, flags=re.S)
-        if oq:
-            tpl = literal_value(re.match(LIT, oq.group(1), flags=re.S))
+        fields = macro_fields(text)
+        args = [v.strip() for k, v in fields if k == "arg"]
+        require(all(re.fullmatch(r"\w+", a) for a in args), "unrecognised arg= of %s: %r" % (name, args))
+        oqs = [v for k, v in fields if k == "open_qasm"]
+        require(len(oqs) <= 1, "%s has several open_qasm= arguments" % name)
+        if oqs:
+            tpl = const_string(oqs[0], "open_qasm= of " + name)
             kind = ".template /- %s -/ %s" % (tpl.replace("-/", "- /"), lean_chars(tpl))
         else:
             kind = ".plain %s" % lean_str(name.lower())
